@@ -739,7 +739,7 @@ fn c05_case_t<A: Subject>(run: &Run, cfg: &Cfg, st: &Start, word: &[Op], cut: us
     r2.min_in_force = min_in_force;
     r2.first_alloc_done = true;
     for (m, pat) in &lives {
-      r2.pinned.push(Live { h: None, m: *m, pat: *pat, needs_drop: false, owned: false, refs_delta: 0 });
+      r2.pinned.push(Live { h: None, m: *m, pat: *pat, needs_drop: false, owned: false, refs_delta: 0, dropped_at_write: 0 });
     }
     // handles of the twin that the continuation could release do not exist on the reopened side:
     // the continuation only allocates / discards / sets, and releases what it allocated itself
